@@ -67,10 +67,14 @@ func runSeatChecks(ctx *RunCtx, rep *Report, prop string, props []string, nHist,
 func checkC08(ctx *RunCtx) int {
 	rep := NewReport()
 	runSeatChecks(ctx, rep, "C08", []string{"C08"}, ctx.N(60000, 2000000), ctx.N(40000, 1000000), true)
+	// Next() while another goroutine keeps players sitting out and back in
+	runCases(ctx, rep, 83, ctx.N(600, 12000), func(i int, r *rand.Rand, local *Report) {
+		runNextUnderToggle("C08", local, ctx.Seed, i, r, 150)
+	})
 	return finish(ctx, rep, &CheckSpec{
 		Prop: "C08", Level: "exploration", EvalCounter: "successful_next", NonTrivSet: "nontrivial08",
-		Rule:        "random histories of join(any/specific/out-of-range)/sit-in/reserve/leave/next on tables of 2-10 seats plus targeted join-between scenarios; after every successful Next(): the three positions are on playable seats (occupied, active, not reserved - the set the table deals in), heads-up and 3+ blind rules; a deal-in watch armed when a player joins and sits in on a seat strictly between dealer and big blind that was empty when positions were assigned, disarmed by any other operation, requires 'dealt in iff the button has passed the seat'; a quarter of the histories hand each position set to the real engine the way table.setupPosition/startGame do and require blinds and first actor on the expected seats. Non-trivial = distinct (table size, dealer, playable set)",
-		Required:    []string{"class_heads_up_positions", "class_three_plus_positions", "deal_in_watches_armed", "deal_in_watches_resolved", "engine_handoffs"},
+		Rule:        "random histories of join(any/specific/out-of-range)/sit-in/reserve/leave/next on tables of 2-10 seats plus targeted join-between scenarios; after every successful Next(): the three positions are on playable seats (occupied, active, not reserved - the set the table deals in), heads-up and 3+ blind rules; a deal-in watch armed when a player joins and sits in on a seat strictly between dealer and big blind that was empty when positions were assigned, disarmed by any other operation, requires 'dealt in iff the button has passed the seat'; Next() is also called while another goroutine keeps one or two seated players sitting out and back in (or leaving and re-joining); with that goroutine parked, the positions must fit the playable set for some status the toggled seats could have had during the move (no sequential explanation otherwise); a quarter of the histories hand each position set to the real engine the way table.setupPosition/startGame do and require blinds and first actor on the expected seats. Non-trivial = distinct (table size, dealer, playable set)",
+		Required:    []string{"class_heads_up_positions", "class_three_plus_positions", "deal_in_watches_armed", "deal_in_watches_resolved", "engine_handoffs", "concurrent_next_checked", "class_position_on_toggled_seat"},
 		Assumptions: []string{"a seat vacated during the hand stays active and the button may land on it: outside the claim, the watch is not armed there", "the table object is timer/goroutine driven and its tests hang in this sandbox: its setupPosition/startGame logic is re-enacted, not run"},
 	})
 }
@@ -294,8 +298,8 @@ func checkC09(ctx *RunCtx) int {
 	return finish(ctx, rep, &CheckSpec{
 		Extra: extra,
 		Prop:  "C09", Level: "exploration", EvalCounter: "quiescent_checks", NonTrivSet: "nontrivial",
-		Rule:        "random tournament histories against a world of real tables that follow the regulator's instructions (registration batches 1..4*max and bursts of 300, pending -> running -> registration closed at random points, syncs with 0-3 eliminations on random tables, releases, breaks, unknown-table calls), all settings 2<=min<=max<=10 plus 9/6, and long tournaments down to the final table. After every completed step: every live player is in exactly one of {waiting queue (hook), one table}, nobody is handed out twice or after elimination, GetPlayerCount/GetTableCount/GetTable(id).PlayerCount equal the real numbers; unknown-table syncs (also the repeated last report of a broken table) and late registrations must be refused with the observable state unchanged. Histories include re-entries under the same id, registration batches that are windows of one roster array, tables that keep the list they were handed, releases delivered late (players counted as in transit) and a pause (status back to pending and forward). A concurrent world (registrars and table owners on different goroutines, ledger at quiescence) runs in-process and in a -race build. evaluations = quiescent-point checks; non-trivial = distinct histories",
-		Required:    []string{"class_players_waiting", "class_registration_after_deadline", "class_unknown_table", "class_table_broken", "top_ups", "releases", "long_tournaments", "class_final_table_reached", "class_re_entry", "class_delayed_release", "class_paused", "class_late_report_of_broken_table", "concurrent_quiescent_checks", "race_build_concurrent_quiescent_checks"},
+		Rule:        "random tournament histories against a world of real tables that follow the regulator's instructions (registration batches 1..4*max and bursts of 300, pending -> running -> registration closed at random points, syncs with 0-3 eliminations on random tables, releases, breaks, unknown-table calls), all settings 2<=min<=max<=10 plus 9/6, and long tournaments down to the final table. After every completed step: every live player is in exactly one of {waiting queue (hook), one table}, nobody is handed out twice or after elimination, GetPlayerCount/GetTableCount/GetTable(id).PlayerCount equal the real numbers; unknown-table syncs (also the repeated last report of a broken table) and late registrations must be refused with the observable state unchanged. Histories include re-entries under the same id, registration batches that are windows of one roster array, names handed over in one message buffer that the caller overwrites and re-uses after every call, tables that keep the list they were handed, releases delivered late (players counted as in transit) and a pause (status back to pending and forward). A concurrent world (registrars and table owners on different goroutines, ledger at quiescence) runs in-process and in a -race build. evaluations = quiescent-point checks; non-trivial = distinct histories",
+		Required:    []string{"class_players_waiting", "class_registration_after_deadline", "class_unknown_table", "class_table_broken", "top_ups", "releases", "long_tournaments", "class_final_table_reached", "class_re_entry", "class_delayed_release", "class_paused", "class_late_report_of_broken_table", "class_caller_buffer_reused", "concurrent_quiescent_checks", "race_build_concurrent_quiescent_checks"},
 		Assumptions: []string{"ReleasePlayers never validates its table id and is legitimately called with the id of a table the regulator has just deleted; 'unknown table is refused' is asserted for SyncState/GetTable only", "tables follow the protocol of the repo's own tests: eliminate, report, seat the returned players, release exactly the requested number"},
 	})
 }
